@@ -53,15 +53,16 @@ def run_plan(pid, tier, seed, plan):
         worlds = plan["worlds"](tier, seed) if callable(plan["worlds"]) else plan["worlds"]
         exes = build_many([dict(source=w["source"], defines=w.get("defines", ()), compiler=w.get("compiler", "g++"), std=w.get("std", "c++11"),
                                 opt=w.get("opt", "-O1"), sanitize=w.get("sanitize", True), name=w["name"]) for w in worlds])
-        # 4. replay and validate
+        # 4. replay and validate: all (world, script set, chunk) tasks share one pool
         total_exec = total_events = 0
         rejections = []
         stats = {}
         samples = []
         world_notes = []
-        counted = []   # interpreter statistics are taken once per script set, so that distinct scripts are counted once
-        for w, exe in zip(worlds, exes):
-            wexec = wev = 0
+        tasks = []
+        exe_of = {}
+        for wi, (w, exe) in enumerate(zip(worlds, exes)):
+            exe_of[w["name"]] = (exe, w)
             for tag, scripts, n, mfrac in script_sets:
                 if w.get("only_tags") and tag not in w["only_tags"]:
                     continue
@@ -70,27 +71,41 @@ def run_plan(pid, tier, seed, plan):
                 nuse = n
                 if frac < 1.0:
                     use = os.path.join(wd, "%s.%s.sample" % (w["name"], tag))
-                    nuse = se.sample_file(scripts, n, max(1, int(n * frac)), seed * 7919 + len(world_notes), use)
-                o = se.replay_and_validate(exe, w["name"], use, nuse, plan["trace_module"], wd, "%s-%s" % (w["name"], tag),
-                                           interp_args=w.get("args", ()), reset_event=plan.get("reset_event", '"e":"rs"'), max_rej=1,
-                                           trace_env=w.get("trace_env"))
-                wexec += o.executions
-                wev += o.events
-                for r in o.rejections:
-                    r["exe"] = exe
-                    r["interp_args"] = list(w.get("args", ()))
-                    r["trace_env"] = w.get("trace_env")
-                rejections += o.rejections
-                if w is worlds[0] or not any(tag == t for t, _ in counted):
-                    counted.append((tag, w["name"]))
-                    for k, v in o.interp_stats.items():
-                        stats[k] = stats.get(k, 0) + v
-                if o.samples and len(samples) < 2:
-                    samples.append({"world": w["name"], "first_events_of_trace": o.samples})
-            world_notes.append({"world": w["name"], "executions": wexec, "events": wev})
-            total_exec += wexec
-            total_events += wev
-            log("%s world %s: %d executions, %d events, %d rejections so far" % (pid, w["name"], wexec, wev, len(rejections)))
+                    nuse = se.sample_file(scripts, n, max(1, int(n * frac)), seed * 7919 + wi, use)
+                tasks += se.make_tasks(exe, w["name"], use, nuse, plan["trace_module"], wd, "%s-%s" % (w["name"], tag),
+                                       interp_args=w.get("args", ()), reset_event=plan.get("reset_event", '"e":"rs"'), max_rej=1,
+                                       trace_env=w.get("trace_env"))
+        results = se.run_tasks(tasks)
+        per_world = {}
+        by_set = {}    # script set -> world -> [executions, stats]; distinct scripts are counted once: from the world that ran most of the set
+        for r in results:
+            exe, w = exe_of[r["world"]]
+            pw = per_world.setdefault(r["world"], [0, 0])
+            pw[0] += r["executions"]
+            pw[1] += r["events"]
+            for rej in r["rejections"]:
+                rej["exe"] = exe
+                rej["interp_args"] = list(w.get("args", ()))
+                rej["trace_env"] = w.get("trace_env")
+            rejections += r["rejections"]
+            settag = r["tag"][len(r["world"]) + 1:]
+            slot = by_set.setdefault(settag, {}).setdefault(r["world"], [0, {}])
+            slot[0] += r["executions"]
+            for k, v in r["stats"].items():
+                slot[1][k] = slot[1].get(k, 0) + v
+            if r["sample"] and len(samples) < 1:
+                samples.append({"world": r["world"], "first_events_of_trace": r["sample"]})
+        for settag, ws in by_set.items():
+            best = max(ws.values(), key=lambda x: x[0])
+            for k, v in best[1].items():
+                stats[k] = stats.get(k, 0) + v
+        for w in worlds:
+            pw = per_world.get(w["name"], [0, 0])
+            world_notes.append({"world": w["name"], "executions": pw[0], "events": pw[1]})
+            total_exec += pw[0]
+            total_events += pw[1]
+            log("%s world %s: %d executions, %d events" % (pid, w["name"], pw[0], pw[1]))
+        log("%s: %d rejections" % (pid, len(rejections)))
         # 5. report
         known = [k for k in known_findings() if k["property"] == pid]
         violations = 0
